@@ -2,8 +2,9 @@
    Model: Model/Chain.v (samplingfactory.create_q_vector / compute_intensity_of_jumps, TruncatedLevyMeasure) over
    Model/Grid.v; `_truncated_interval` is the py2coq-generated Gen/GenC01Trunc.v.
    The theorems are stated inside a Section for an ARBITRARY interval mass `mass a b` (= LevyMeasure.integrate) that is
-   additive and non-negative -- what C09 proves of each model family's closed forms -- over Q (see THEOREM_NOTES), and for
-   an arbitrary `mid` (= grid.middle) with the three stated properties. *)
+   additive and non-negative ON INTERVALS NOT CONTAINING THE ORIGIN (so that infinite-activity measures qualify), over Q
+   (see THEOREM_NOTES: the link to C09's real-valued closed forms is NOT formal), and for an arbitrary `mid` (= grid.middle
+   at one fixed level) with the stated properties; only the arithmetic mean `amid` is a PROVED instance of `mid`. *)
 From Coq Require Import ZArith QArith List.
 From RV Require Import Base.QB Model.Grid Gen.GenC01Trunc Model.Chain Proofs.C13_Grid Proofs.C01_Chain.
 Import ListNotations.
@@ -12,11 +13,13 @@ Open Scope Q_scope.
 Section Measure.
   Variable mid : Q -> Q -> Q.
   Hypothesis mid_between : forall x y, x < y -> x < mid x y /\ mid x y < y.
-  Hypothesis mid_refl : forall x, mid x x == x.
+  Hypothesis mid_refl : forall x, ~ x == 0 -> mid x x == x.      (* needed at the two end points of the axis only *)
   Hypothesis mid_proper : forall x x' y y', x == x' -> y == y' -> mid x y == mid x' y'.
   Variable mass : Q -> Q -> Q.
-  Hypothesis mass_add : forall a b c, a <= b -> b <= c -> mass a c == mass a b + mass b c.
-  Hypothesis mass_pos : forall a b, a <= b -> 0 <= mass a b.
+  (* additivity and positivity are required ONLY of intervals that do not contain the origin: there every Levy measure is
+     finite, also the infinite-activity ones (VG, CGMY) whose mass near 0 is infinite *)
+  Hypothesis mass_add : forall a b c, a <= b -> b <= c -> (c < 0 \/ 0 < a) -> mass a c == mass a b + mass b c.
+  Hypothesis mass_pos : forall a b, a <= b -> (b < 0 \/ 0 < a) -> 0 <= mass a b.
   Hypothesis mass_proper : forall a a' b b', a == a' -> b == b' -> mass a b == mass a' b'.
 
   (* cells of consecutive states share their end point (no gap), a cell ends before every later cell begins (no
@@ -34,23 +37,31 @@ Section Measure.
     /\ h_left mid xs o < 0 /\ 0 < h_right mid xs o.
   Proof. intros xs o h A. apply (cells_tile mid) with (h := h); assumption. Qed.
 
-  Theorem C01_rates_nonneg : forall xs o k, incr xs -> (k < length xs)%nat -> 0 <= q_entry mid mass xs o k.
-  Proof. intros. apply (rates_nonneg mid); assumption. Qed.
+  (* the cell of every state left (right) of the origin lies strictly left (right) of 0: no rate involves the mass near 0 *)
+  Theorem C01_cells_avoid_origin : forall xs o h, admissible xs o h ->
+    forall k, (k < length xs)%nat -> ((k < o)%nat -> cell_hi mid xs k < 0) /\ ((o < k)%nat -> 0 < cell_lo mid xs k).
+  Proof.
+    intros xs o h A. pose proof (admissible_ends xs o h A). destruct A as (Hi & H1 & H2 & _ & H0 & _).
+    apply (cell_side mid); assumption.
+  Qed.
+
+  Theorem C01_rates_nonneg : forall xs o h k, admissible xs o h -> (k < length xs)%nat -> 0 <= q_entry mid mass xs o k.
+  Proof. intros. apply (rates_nonneg mid) with (h := h); assumption. Qed.
 
   (* sum of the rates == the intensity the process reports, for every admissible axis of any length *)
   Theorem C01_sum_rates_is_intensity_1d : forall xs o h, admissible xs o h ->
     qsum (q_vector mid mass xs o) == intensity1 mid mass xs o.
   Proof. intros xs o h A. apply (sum_rates_is_intensity_1d mid) with (h := h); assumption. Qed.
 
-  (* the truncated measure TruncatedLevyMeasure(nu, (l, r)) is again additive and non-negative, equals nu on
-     sub-intervals of [l,r] and is the mass of the intersection in general: all theorems above apply to it *)
-  Theorem C01_truncated_mass : forall l r, l <= r ->
-    (forall a b c, a <= b -> b <= c -> tmass mass l r a c == tmass mass l r a b + tmass mass l r b c)
-    /\ (forall a b, a <= b -> 0 <= tmass mass l r a b)
+  (* the truncated measure TruncatedLevyMeasure(nu, (l, r)), l < 0 < r, is again additive and non-negative away from 0, equals
+     nu on sub-intervals of [l,r] and is the mass of the intersection in general: all theorems above apply to it *)
+  Theorem C01_truncated_mass : forall l r, l < 0 -> 0 < r ->
+    (forall a b c, a <= b -> b <= c -> (c < 0 \/ 0 < a) -> tmass mass l r a c == tmass mass l r a b + tmass mass l r b c)
+    /\ (forall a b, a <= b -> (b < 0 \/ 0 < a) -> 0 <= tmass mass l r a b)
     /\ (forall a a' b b', a == a' -> b == b' -> tmass mass l r a b == tmass mass l r a' b')
     /\ (forall a b, l <= a -> a <= b -> b <= r -> tmass mass l r a b == mass a b)
     /\ (forall a b, a <= b -> Qmaxb a l <= Qminb b r -> tmass mass l r a b == mass (Qmaxb a l) (Qminb b r)).
-  Proof. intros l r H. apply (truncated_mass mass); assumption. Qed.
+  Proof. intros l r Hl Hr. apply (truncated_mass mass); assumption. Qed.
 
   (* what MarkovChainProcess actually builds: the measure truncated to (axis[0], axis[-1]) *)
   Theorem C01_chain_rates : forall xs o h, admissible xs o h ->
@@ -59,6 +70,20 @@ Section Measure.
     /\ (forall k, (k < length xs)%nat -> 0 <= q_entry mid m xs o k)
     /\ (forall k, (k < length xs)%nat -> k <> o -> q_entry mid m xs o k == mass (cell_lo mid xs k) (cell_hi mid xs k)).
   Proof. intros xs o h A. apply (chain_rates mid) with (h := h); assumption. Qed.
+
+  (* every refinement level: the chain built on the axis refined n times (stateless middle) *)
+  Hypothesis mid_left0 : forall x y, y == 0 -> mid x y == x / 2.
+  Hypothesis mid_right0 : forall x y, x == 0 -> mid x y == y / 2.
+  Theorem C01_refined : forall n xs o h, admissible xs o h ->
+    let xs' := refine_axis_n mid n xs in let o' := (2 ^ n * o)%nat in
+    qsum (q_vector mid mass xs' o') == intensity1 mid mass xs' o'
+    /\ (forall k, (k < length xs')%nat -> 0 <= q_entry mid mass xs' o' k).
+  Proof.
+    intros n xs o h A xs' o'.
+    pose proof (refine_n_admissible mid mid_between mid_left0 mid_right0 n xs o h A) as A'. fold xs' o' in A'.
+    split; [apply (sum_rates_is_intensity_1d mid) with (h := h / inject_Z (2 ^ Z.of_nat n)); assumption|].
+    intros k Hk. apply (rates_nonneg mid) with (h := h / inject_Z (2 ^ Z.of_nat n)); assumption.
+  Qed.
 End Measure.
 
 (* _truncated_interval (generated from the source): intersection with [l,r], degenerate when disjoint *)
@@ -88,9 +113,11 @@ Example C01_nonvacuous :
 Proof. vm_compute. repeat split. Qed.
 
 Print Assumptions C01_cells_tile.
+Print Assumptions C01_cells_avoid_origin.
 Print Assumptions C01_rates_nonneg.
 Print Assumptions C01_sum_rates_is_intensity_1d.
 Print Assumptions C01_truncated_mass.
 Print Assumptions C01_chain_rates.
+Print Assumptions C01_refined.
 Print Assumptions C01_truncated_interval.
 Print Assumptions C01_step_mass_is_a_measure.
